@@ -66,6 +66,9 @@ SCENARIOS = {
     # each thread probes the generator function t; the first parks a half-consumed generator, whichever
     # thread gets to it first closes it
     "generator-handoff": [("genprobe", "t > v", "owner"), ("genprobe", "t > v", "closer")],
+    # the first thread's probe ends first (first in, first out): its deactivation has to build the variant
+    # of f for the other thread's variable alone, while that thread activates a second probe on g
+    "fifo-and-other-function": [("probe", "f > a"), ("probe2", "f > b", "g > c")],
     "three-threads": [("probe", "f > a"), ("probe", "f > b"), ("calls",)],
 }
 
@@ -138,6 +141,11 @@ def expected_for(spec, k):
     results = ((k + 1) * 2, (k + 1) * 2, (k + 2) * 2)
     if spec[0] in ("calls", "refused"):
         return (), results
+    if spec[0] == "probe2":
+        b = lambda v: (("b", (v + 1) * 2),)
+        ev1 = (b(k), b(k), b(k + 1), b(k + 1))
+        ev2 = ((("c", (k + 2) * 2),),)
+        return (ev1, ev2), ((k + 1) * 2, (k + 1) * 2, (k + 2) * 2, (k + 2) * 2)
     if spec[0] == "genprobe":
         own = tuple((("v", k + i),) for i in range(2))
         if spec[2] == "owner":
@@ -192,6 +200,22 @@ def make_bodies(ns, specs, sched_ref, box=None):
                     res = (r1, r2, r3)
                 finally:
                     p.__exit__(None, None, None)
+            elif spec[0] == "probe2":
+                ev2 = []
+                p1 = probing(spec[1], env={"f": f, "g": g})
+                p1.subscribe(lambda ev: events.append(tuple(sorted(ev.items()))))
+                p2 = probing(spec[2], env={"f": f, "g": g})
+                p2.subscribe(lambda ev: ev2.append(tuple(sorted(ev.items()))))
+                with p1:
+                    handoff("activated")
+                    r1 = f(k)
+                    handoff("called-f")
+                    r2 = g(k)
+                    handoff("before-second")
+                    with p2:
+                        r3 = f(k + 1)
+                        r4 = g(k + 1)
+                return (tuple(events), tuple(ev2)), (r1, r2, r3, r4)
             elif spec[0] == "refused":
                 from ptera.selector import SelectorError
 
@@ -269,11 +293,19 @@ def execute(scenario, prefix, critical_only):
         if id(orig_lock) not in coop:  # one lock may be imported under several module names
             coop[id(orig_lock)] = S.CoopLock(x, f"{m.__name__}.{a}")
         setattr(m, a, coop[id(orig_lock)])
+    # locks the library creates while it runs (per-object locks) become cooperative locks as well
+    proxied = []
+    for name, mod in list(sys.modules.items()):
+        if (name == "ptera" or name.startswith("ptera.")) and getattr(mod, "threading", None) is threading:
+            mod.threading = S.ThreadingProxy(threading)
+            proxied.append(mod)
     try:
         x.run()
     finally:
         for m, a, v in saved:
             setattr(m, a, v)
+        for mod in proxied:
+            mod.threading = threading
     probs = []
     if isinstance(x.fatal, S.ReplayDivergence):
         raise HarnessError(f"schedule replay diverged in {scenario}: {x.fatal}")
@@ -353,6 +385,8 @@ def explore(scenario, critical, bound, prefix, part, seen):
         seen.add(key)
         part["cases"] += 1
     part["outcomes"][f"{scenario}:switches={min(switches, 4)}:{'bad' if probs else 'ok'}"] += 1
+    if probs and any("harness hang" in p for p in probs):
+        part["counters"]["hangs"] += 1
     if probs:
         sched_desc = [(i, p[0], p[3], p[2]) for i, p in enumerate(x.points) if p[0] != p[3]]
         part["violations"].append(violation(
@@ -363,6 +397,8 @@ def explore(scenario, critical, bound, prefix, part, seen):
     if x.preemptions_before(len(x.points)) >= bound:
         return
     for alt in S.alternatives(x, len(prefix), bound):
+        if part["counters"]["hangs"] >= 2:
+            return  # every further schedule of this unit would wait for the same hang
         explore(scenario, critical, bound, alt, part, seen)
 
 
@@ -393,6 +429,8 @@ def work(unit, tier):
     lo, hi = unit[4], unit[5]
     x, _ = execute(scenario, [], critical)
     for alt in S.alternatives(x, 0, bound)[lo:hi]:
+        if part["counters"]["hangs"] >= 2:
+            break
         explore(scenario, critical, bound, alt, part, seen)
     return part
 
